@@ -126,14 +126,23 @@ class World:
             ("C08X", {"template": "<s>X</s>", "js": "var h = '</head>\u00e9\U0001d11e';", "css": ".x:after{content:'\u00fc</body>'}"}),
         ]
         self.comps, self.marker, self.rendered = {}, {}, {}
+        self.setup_problems = []      # (component name, what, rendered html): reported as property failures by run(), never a crash
         for name, attrs in specs:
             cls = type(name, (Component,), dict(attrs, __module__=__name__))
             self.comps[name] = cls
-            html = cls.render(render_dependencies=False)
-            m = D.COMPONENT_COMMENT_REGEX.search(html.encode())
-            assert m, html
-            self.rendered[name] = str(html)
-            self.marker[name] = m.group(0).decode()
+            html = str(cls.render(render_dependencies=False))
+            self.rendered[name] = html
+            # the marker the library wrote, located with the DOCUMENTED grammar (not with the source's pattern)
+            m = SPEC_MARKER.search(html)
+            m_src = D.COMPONENT_COMMENT_REGEX.search(html.encode())
+            if m is None:
+                self.setup_problems.append((name, "the rendered component carries no marker comment of the documented form", html))
+                self.marker[name] = (m_src.group(0).decode() if m_src else "<!-- _RENDERED %s,a1b2c3,, -->" % cls._class_hash)
+                continue
+            self.marker[name] = m.group(0)
+            if m_src is None or m_src.group(0).decode() != m.group(0):
+                self.setup_problems.append((name, "COMPONENT_COMMENT_REGEX of the source does not recognise the marker comment the "
+                                                  "library itself wrote for this component", html))
         self.deps_cache = {}
 
     def known(self, hashes):
@@ -479,9 +488,29 @@ def run(tier, seed):
     tab = Table()
     D = world.D
 
+    # ---- 0a. every REAL rendered component: its marker is recognised, removed, and its tags are inserted ----
+    for name, what, html in world.setup_problems:
+        chk.fail("c08-marker-not-recognised", "%s (component class %s)" % (what, name),
+                 {"kind": "render", "pieces": [html], "type": "document", "input_kind": "str", "doc": html, "component": name})
+    for name in world.comps:
+        html = CSS_PH + world.rendered[name] + JS_PH      # placeholders: the tags have a documented place to go
+        for kind in ("str", "bytes"):
+            got = run_impl(world, html, "document", kind)
+            chk.count(("rendered", name, kind), False, kind="rendered-component")
+            left = got[0] == "ok" and SPEC_MARKER.search(got[2]) is not None
+            js_c, css_c = world.comps[name].js, world.comps[name].css
+            missing = got[0] == "ok" and any(txt and txt not in got[2] for txt in (js_c, css_c))
+            if got[0] != "ok" or left or missing:
+                chk.fail("c08-marker-not-recognised",
+                         "render_dependencies on the output of a real component (class %s): %s" % (
+                             name, "raised %s" % got[1] if got[0] != "ok" else
+                             ("the marker comment is still in the output" if left else "the component's inlined JS/CSS was not inserted")),
+                         {"kind": "render", "pieces": [html], "type": "document", "input_kind": kind, "doc": html, "component": name,
+                          "impl": got[-1] if got[0] == "ok" else got})
+
     # ---- 0. sanity of the generated tags taken from the implementation (C04 owns their content) ----
     for names in ([], ["C08A"], ["C08B", "C08A"], ["C08M", "C08Кн"], ["C08X"]):
-        parts = [SPEC_MARKER.fullmatch(world.marker[n]).group(1) for n in names]
+        parts = [(SPEC_MARKER.fullmatch(world.marker[n]) or re.search(r"_RENDERED\s+(\S+)", world.marker[n])).group(1) for n in names]
         js, css = world.deps("document", parts)
         probe = "".join(world.marker[n] for n in names) + CSS_PH + "\x00" + JS_PH
         got = run_impl(world, probe, "document", "str")
